@@ -20,7 +20,7 @@
    6c3ffaf (xargs) 5143c77 (quote removal); what was refuted before them is now proved, and the old
    behaviour is kept as Legacy definitions with their refutations. *)
 From DippyV Require Import Base.Str Base.Verdict Gen.Tables Model.BashQuote Model.Getopt Model.Wrappers Model.WrapSpec
-  Proofs.VerdictP Proofs.BashQuoteP Proofs.WrappersP.
+  Proofs.VerdictP Proofs.BashQuoteP Proofs.WrappersP Proofs.WrapOptsP.
 
 (* ------------------------------------------------------------------ re-quoting *)
 (* faithful for EVERY string: bash reads bash_quote s back as the single word s *)
@@ -120,6 +120,23 @@ Theorem C04_extract_env : forall assigns c0 cs,
 Proof. exact env_extract. Qed.
 Print Assumptions C04_extract_env.
 
+(* env OPTION... [NAME=VALUE]... COMMAND ARG... for every sequence of option words of env_opts:
+   clusters of -i -v (any length), -u NAME / -C DIR as last letter of a cluster with the value separate or
+   attached, --NAME for EVERY spelling NAME that getopt_long resolves - exactly or as a unique abbreviation -
+   to ignore-environment debug list-signal-handling block-signal default-signal ignore-signal, and
+   --unset / --chdir in every resolvable spelling with a separate or =-joined value; every NAME env accepts,
+   every DIR, every assignment list, every command (the spellings 23c5075 repaired included) *)
+Theorem C04_extract_env_opts : forall opts assigns c0 cs,
+  env_opts opts -> forallb assign_word assigns = true -> dash c0 = false -> has_eq c0 = false ->
+  env_h ($"env" :: opts ++ assigns ++ c0 :: cs) = HWords [c0 :: cs] false /\
+  env_exec (opts ++ assigns ++ c0 :: cs) = Some [c0 :: cs].
+Proof. exact env_extract_opts. Qed.
+Print Assumptions C04_extract_env_opts.
+(* the handler's list of candidate long names is [m] whenever getopt_long resolves the spelling to m *)
+Theorem C04_env_abbreviations : forall n m k, resolve_long n (longs env_spec) = Some (m, k) -> long_names ENV_LONG_OPTIONS n = [m].
+Proof. exact (fun n m k => long_names_resolve ENV_LONG_OPTIONS (longs env_spec) n m k (proj1 env_tables_perm) (proj2 env_tables_perm)). Qed.
+Print Assumptions C04_env_abbreviations.
+
 (* xargs COMMAND ARG... and xargs -- COMMAND ARG...: the command plus one unknown appended argument is judged *)
 Theorem C04_extract_xargs : forall c0 cs, dash c0 = false -> xargs_unsafe (c0 :: cs) = false ->
   xargs_h ($"xargs" :: c0 :: cs) = HWords [(c0 :: cs) ++ [PLACEHOLDER]] false /\ xargs_exec (c0 :: cs) = Some [c0 :: cs].
@@ -192,6 +209,16 @@ Example C04_example_bash :
   bash_exec (w ["--norc"; "-ex"; "-o"; "pipefail"; "-c"; "-u"; "rm -rf x"; "arg0"]) = Some (SString $"rm -rf x") /\
   bash_exec (w ["-e"; "script.sh"; "-c"; "ls"]) = Some (SFile $"script.sh").
 Proof. vm_compute. split; reflexivity. Qed.
+Example C04_example_env :
+  env_opts (w ["-iv"; "-iu"; "HOME"; "--ch=/tmp"; "-vuPATH"; "--block"; "--uns"; "X"]).
+Proof.
+  apply (eo_cluster [105; 118]); [discriminate|reflexivity|].
+  apply (eo_unset_sep [105] $"HOME"); [reflexivity|reflexivity|].
+  apply (eo_long_chdir_eq $"ch" AReq $"/tmp"); [reflexivity|vm_compute; reflexivity|].
+  apply (eo_unset_att [118] $"PATH"); [reflexivity|reflexivity|].
+  apply (eo_long $"block" $"block-signal" AOpt); [reflexivity|vm_compute; reflexivity|cbn; tauto|].
+  apply (eo_long_unset_sep $"uns" AReq $"X"); [reflexivity|vm_compute; reflexivity|reflexivity|]. constructor.
+Qed.
 Example C04_example_oracles_satisfiable :
   let judge := fun (_ : bool) (_ : list str) => Ask in
   let astr := fun (_ : bool) (s : str) => match s with [] => Allow | _ => Ask end in
